@@ -10,7 +10,7 @@ from . import common, compat, ih5common as X, protocommon as PC
 from .c01 import jobs_random
 from .common import Report
 
-CLAUSES = {"ok_matches_protocol", "state_matches_protocol", "view_function_of_payloads", "neighbours_untouched",
+CLAUSES = {"list_records_exact", "find_files_exact", "ok_matches_protocol", "state_matches_protocol", "view_function_of_payloads", "neighbours_untouched",
            "records_valid", "observation_changes_nothing", "operation_terminates"}
 DATA_CLAUSES = {"boundary_is_stutter", "discard_restores_commit", "open_does_not_alter_files",
                 "view_eq_documented_reading_of_files", "view_readable"}
